@@ -187,7 +187,7 @@ Lemma nest_gather dims n w vs ix :
   Forall (fun i => 0 <= i < n) ix ->
   nest dims (zlen ix) (concat (map (fun i => take (prodZ dims) (drop (i * prodZ dims) w)) ix)) = mapM (get vs) ix.
 Proof.
-  intros Hd Hw Hn. induction 1 as [|i ix Hi _ IH].
+  intros Hd Hw Hn. induction 1 as [|i ix Hi Hix IH].
   - cbn [map concat mapM]. rewrite zlen_nil.
     destruct (nest_total dims 0 (@nil value) Hd) as [out Ho]; [lia|]. rewrite Ho. f_equal.
     apply zlen_0_nil. eapply nest_zlen; [exact Ho|assumption|lia|reflexivity].
@@ -202,6 +202,322 @@ Proof.
     + unfold rest. fold rs.
       rewrite (zlen_concat_const _ rs); [rewrite zlen_map; reflexivity|].
       apply Forall_forall. intros l Hl. apply in_map_iff in Hl as (j & <- & Hj).
-      rewrite Forall_forall in H. specialize (H j Hj).
+      rewrite Forall_forall in Hix. specialize (Hix j Hj).
       rewrite zlen_take; [reflexivity|]. rewrite zlen_drop by nia. nia.
+Qed.
+
+(* ---------------------------------------------------------------- Numpy leaf *)
+Lemma take_drop_take {A} (X : list A) a b P :
+  0 <= a -> 0 <= b -> a + b <= P -> take b (drop a (take P X)) = take b (drop a X).
+Proof.
+  intros Ha Hb HP. unfold take, drop. rewrite skipn_firstn_comm, firstn_firstn. f_equal. lia.
+Qed.
+
+Lemma carry_numpy dt shape data vs ix :
+  to_list (Numpy dt shape data) = Ok vs -> Forall (fun i => 0 <= i < clen (Numpy dt shape data)) ix ->
+  exists c', carry (Numpy dt shape data) ix = Ok c' /\ to_list c' = mapM (get vs) ix /\ clen c' = zlen ix.
+Proof.
+  intros Hl Hix. apply to_list_Numpy_inv in Hl as (n & dims & -> & Hs & Hd & Hn).
+  inversion Hs as [|? ? Hn0 Hds]; subst. cbn [clen] in Hix. cbn [carry].
+  set (rs := prodZ dims) in *. assert (Hrs : 0 <= rs) by (apply prodZ_nonneg, Hds).
+  rewrite prodZ_cons in Hd, Hn. fold rs in Hd, Hn.
+  set (rows := map (fun i => take rs (drop (i * rs) data)) ix).
+  assert (Hrows : mapM (fun i => if (0 <=? i) && (i <? n) then slice data (i * rs) ((i + 1) * rs) else Err EOob) ix = Ok rows).
+  { rewrite mapM_guard_res by (eapply Forall_impl; [|exact Hix]; cbv beta; intros; lia).
+    unfold rows. rewrite <- mapM_pure. apply mapM_ext_in. intros i Hi. rewrite Forall_forall in Hix. specialize (Hix i Hi).
+    rewrite slice_ok by nia. do 2 f_equal. ring. }
+  rewrite Hrows. cbn [bind]. eexists. split; [reflexivity|]. split; [|reflexivity].
+  assert (Hlen : zlen (concat rows) = zlen ix * rs).
+  { rewrite (zlen_concat_const _ rs); [unfold rows; rewrite zlen_map; reflexivity|].
+    apply Forall_forall. intros l Hl. apply in_map_iff in Hl as (i & <- & Hi).
+    rewrite Forall_forall in Hix. specialize (Hix i Hi). rewrite zlen_take; [reflexivity|]. rewrite zlen_drop by nia. nia. }
+  rewrite to_list_Numpy.
+  rewrite Forall_nonneg_existsb by (constructor; [apply zlen_nonneg|exact Hds]).
+  rewrite prodZ_cons. fold rs. destruct (zlen (concat rows) <? zlen ix * rs) eqn:E; [lia|].
+  rewrite take_all by lia.
+  set (w := map (leaf dt) (take (n * rs) data)) in *.
+  assert (Hw : zlen w = n * rs) by (unfold w; rewrite zlen_map, zlen_take; [reflexivity|nia]).
+  rewrite <- (nest_gather dims n w vs ix Hds Hw Hn Hix). fold rs. f_equal.
+  unfold rows. rewrite concat_map, map_map. f_equal. apply map_ext_in. intros i Hi.
+  rewrite Forall_forall in Hix. specialize (Hix i Hi).
+  unfold w. rewrite !map_take, map_drop. rewrite take_drop_take by nia. reflexivity.
+Qed.
+
+(* ---------------------------------------------------------------- option masks, records *)
+Lemma bytemasked_gather vs0 ws m m' vw ix out :
+  mapM (get vs0) ix = Ok ws -> mapM (get m) ix = Ok m' ->
+  mapM (fun im : Z * Z => let (i, b) := im in pick_opt vs0 (Bool.eqb (negb (b =? 0)) vw) i) (zip (iota (zlen m)) m) = Ok out ->
+  mapM (fun im : Z * Z => let (i, b) := im in pick_opt ws (Bool.eqb (negb (b =? 0)) vw) i) (zip (iota (zlen m')) m')
+  = mapM (get out) ix.
+Proof.
+  intros Hws Hm' Hout. rewrite (mapM_gather _ _ out ix Hout).
+  pose proof (gather_range_inv _ _ _ Hm') as Hr.
+  rewrite gather_zip, gather_iota, Hm' by exact Hr. cbn [bind].
+  pose proof (mapM_zlen _ _ _ Hm') as Hl. pose proof (zlen_nonneg ix).
+  apply mapM_pointwise_eq.
+  - rewrite !zlen_zip, zlen_iota by lia. lia.
+  - intros j Hj. rewrite zlen_zip, zlen_iota in Hj by lia.
+    rewrite !get_zip, get_iota by lia. cbn [bind].
+    destruct (get_ok ix j) as [i Hi]; [lia|]. destruct (get_ok m' j) as [b Hb]; [lia|].
+    rewrite Hi, Hb. cbn [bind]. unfold pick_opt. destruct (Bool.eqb _ _); [|reflexivity].
+    rewrite (mapM_get _ _ _ j Hws), Hi. reflexivity.
+Qed.
+
+Lemma bitmask_as_bytemask vs0 m vw lsb n bm :
+  bytemask_of_bits m lsb n = Ok bm -> 0 <= n ->
+  mapM (fun i => do b <- bit_at m lsb i; pick_opt vs0 (Bool.eqb b vw) i) (iota n) =
+  mapM (fun im : Z * Z => let (i, b) := im in pick_opt vs0 (Bool.eqb (negb (b =? 0)) vw) i) (zip (iota (zlen bm)) bm).
+Proof.
+  intros Hbm Hn. unfold bytemask_of_bits in Hbm. pose proof (mapM_zlen _ _ _ Hbm) as Hl. rewrite zlen_iota in Hl by lia.
+  apply mapM_pointwise_eq.
+  - rewrite zlen_zip, !zlen_iota by lia. lia.
+  - intros j Hj. rewrite zlen_iota in Hj by lia. rewrite get_zip, Hl, !get_iota by lia. cbn [bind].
+    rewrite (mapM_get _ _ _ j Hbm), get_iota by lia. cbn [bind].
+    destruct (bit_at m lsb j) as [b|]; [|reflexivity]. cbn [bind]. destruct b; reflexivity.
+Qed.
+
+Lemma rows_gather ks vss vss' ix :
+  mapM (fun col : list value => mapM (get col) ix) vss = Ok vss' ->
+  mapM (row ks vss') (iota (zlen ix)) = mapM (row ks vss) ix.
+Proof.
+  intros H. pose proof (zlen_nonneg ix). apply mapM_pointwise_eq.
+  - apply zlen_iota. lia.
+  - intros j Hj. rewrite zlen_iota in Hj by lia. rewrite get_iota by lia.
+    destruct (get_ok ix j) as [i Hi]; [lia|]. rewrite Hi. cbn [bind]. unfold row.
+    replace (mapM (fun col : list value => get col j) vss') with (mapM (fun col : list value => get col i) vss); [reflexivity|].
+    rewrite (mapM_mapM _ (fun col : list value => get col j) vss vss' H). apply mapM_ext_in. intros col Hcol.
+    destruct (mapM_Ok_In _ _ _ _ H Hcol) as (col' & Hcol' & _). rewrite Hcol'. cbn [bind].
+    rewrite (mapM_get _ _ _ j Hcol'), Hi. reflexivity.
+Qed.
+
+Lemma carry_Record cs ks n ix :
+  carry (Record cs ks n) ix =
+  if forallb (fun i => (0 <=? i) && (i <? n)) ix
+  then do cs' <- mapM (fun x => carry x ix) cs; Ok (Record cs' ks (zlen ix)) else Err EOob.
+Proof.
+  cbn [carry]. destruct (forallb _ ix); [|reflexivity]. f_equal.
+  induction cs as [|c cs IH]; [reflexivity|]. cbn [mapM]. rewrite <- IH. reflexivity.
+Qed.
+
+(* ---------------------------------------------------------------- T3 *)
+Definition carry_at (c : content) : Prop :=
+  forall p vs ix, Valid p c -> to_list c = Ok vs -> Forall (fun i => 0 <= i < clen c) ix ->
+  exists c', carry c ix = Ok c' /\ to_list c' = mapM (get vs) ix /\ clen c' = zlen ix.
+
+Lemma carry_Par a r c ix : carry (Par a r c) ix = do c'' <- carry c ix; Ok (Par a r c'').
+Proof. reflexivity. Qed.
+
+(* content of a list node: valid, or (below a string) a character buffer *)
+Lemma carry_content p c cc :
+  carry_at cc -> ParamOk p c -> list_content c = Some cc -> (is_strk p = false -> Valid None cc) ->
+  forall vs ix, to_list cc = Ok vs -> Forall (fun i => 0 <= i < clen cc) ix ->
+  exists c', carry cc ix = Ok c' /\ to_list c' = mapM (get vs) ix /\ clen c' = zlen ix.
+Proof.
+  intros IH Hp Hc Hv vs ix Hl Hix. destruct (is_strk p) eqn:Es.
+  - destruct (ParamOk_str _ _ Hp Es) as (c' & k & rn & n & d & Hc' & -> & Hk). rewrite Hc in Hc'. inversion Hc'; subst.
+    rewrite to_list_Par in Hl. apply bind_Ok in Hl as (vs0 & Hl0 & Hl).
+    assert (vs = vs0) by (destruct Hk as [-> | ->]; inversion Hl; reflexivity). subst vs0.
+    destruct (carry_numpy _ _ _ _ ix Hl0 Hix) as (c'' & Hc'' & Hl'' & Hn'').
+    rewrite carry_Par, Hc''. cbn [bind]. eexists. split; [reflexivity|]. split; [|exact Hn''].
+    rewrite to_list_Par, Hl''. destruct (mapM (get vs) ix); [|reflexivity]. cbn [bind].
+    destruct Hk as [-> | ->]; reflexivity.
+  - eapply IH; [apply Hv; reflexivity|exact Hl|exact Hix].
+Qed.
+
+Lemma carry_spec_all c : carry_at c.
+Proof.
+  induction c as [dt shape data| |w o c IHc|w s e c IHc|c size zl IHc|w ix0 c IHc|w ix0 c IHc|m vw c IHc
+                 |m vw lsb n c IHc|c IHc|w t ix0 cs IHcs|cs ks n IHcs|arr rn c IHc] using content_ind';
+    intros p vs ix HV Hl Hix.
+  - apply carry_numpy; assumption.
+  - (* Empty *)
+    destruct ix as [|i ix]; [|inversion Hix; subst; cbn [clen] in *; lia].
+    inversion Hl; subst. exists Empty. repeat split.
+  - (* ListOffset *)
+    rewrite to_list_ListOffset in Hl. apply bind_Ok in Hl as (vs0 & Hl0 & Hl). apply rmap_Ok in Hl as (ls & Hc & ->).
+    unfold cut in Hc. destruct o as [|a o]; [discriminate|]. set (oo := a :: o) in *.
+    assert (Hne : oo <> []) by discriminate. cbn [clen] in Hix.
+    destruct (gather_ok (removelast oo) ix) as [s Hs]; [rewrite zlen_removelast by exact Hne; exact Hix|].
+    destruct (gather_ok (tl oo) ix) as [e He]; [rewrite zlen_tl by exact Hne; exact Hix|].
+    cbn [carry]. unfold gather. rewrite Hs, He. cbn [bind]. eexists. split; [reflexivity|].
+    pose proof (mapM_zlen _ _ _ Hs) as Hls. pose proof (mapM_zlen _ _ _ He) as Hle.
+    split; [|cbn [clen]; exact Hls].
+    rewrite to_list_ListA, Hl0. cbn [bind]. unfold cut2. destruct (zlen e <? zlen s) eqn:E; [lia|].
+    rewrite gather_map. f_equal. rewrite pairs_zip in Hc.
+    apply (mapM_gather_ok _ _ _ ix (zip s e) Hc). rewrite gather_zip, Hs, He. reflexivity.
+  - (* ListA *)
+    rewrite to_list_ListA in Hl. apply bind_Ok in Hl as (vs0 & Hl0 & Hl). apply rmap_Ok in Hl as (ls & Hc & ->).
+    unfold cut2 in Hc. destruct (zlen e <? zlen s) eqn:E0; [discriminate|]. cbn [clen] in Hix.
+    destruct (gather_ok s ix) as [s' Hs]; [exact Hix|].
+    destruct (gather_ok e ix) as [e' He]; [eapply Forall_impl; [|exact Hix]; cbv beta; intros; lia|].
+    cbn [carry]. unfold gather. rewrite Hs, He. cbn [bind]. eexists. split; [reflexivity|].
+    pose proof (mapM_zlen _ _ _ Hs) as Hls. pose proof (mapM_zlen _ _ _ He) as Hle.
+    split; [|cbn [clen]; exact Hls].
+    rewrite to_list_ListA, Hl0. cbn [bind]. unfold cut2. destruct (zlen e' <? zlen s') eqn:E; [lia|].
+    rewrite gather_map. f_equal.
+    apply (mapM_gather_ok _ _ _ ix (zip s' e') Hc). rewrite gather_zip, Hs, He. reflexivity.
+  - (* Regular *)
+    rewrite to_list_Regular in Hl. apply bind_Ok in Hl as (vs0 & Hl0 & Hl). apply rmap_Ok in Hl as (ch & Hch & ->).
+    pose proof (chunks_zlen _ _ _ _ Hch) as [Hsz Hzch]. rewrite (to_list_len _ _ Hl0) in Hzch.
+    cbn [clen] in Hix. rewrite <- Hzch in Hix.
+    set (next := map (fun i => range (i * size) ((i + 1) * size)) ix).
+    assert (Hcc : forall vs1 ix1, to_list c = Ok vs1 -> Forall (fun i => 0 <= i < clen c) ix1 ->
+                   exists c', carry c ix1 = Ok c' /\ to_list c' = mapM (get vs1) ix1 /\ clen c' = zlen ix1).
+    { inversion HV; subst. eapply carry_content; [exact IHc|eassumption|reflexivity|assumption]. }
+    (* rows of the content that are picked *)
+    destruct (gather_ok ch ix) as [rows Hrows]; [exact Hix|].
+    assert (Hsl : mapM (fun i => slice vs0 (i * size) ((i + 1) * size)) ix = Ok rows).
+    { rewrite <- Hrows. apply mapM_ext_in. intros i Hi. rewrite Forall_forall in Hix. symmetry.
+      eapply chunks_get; [exact Hch|apply Hix, Hi]. }
+    assert (Hrs : Forall (fun l => zlen l = size) rows).
+    { apply Forall_forall. intros l Hl. destruct (mapM_In_inv _ _ _ _ Hsl Hl) as (i & _ & Hi).
+      apply slice_zlen in Hi. lia. }
+    assert (Hbounds : forall i, In i ix -> 0 <= i * size /\ i * size <= (i + 1) * size /\ (i + 1) * size <= zlen vs0).
+    { intros i Hi. destruct (mapM_Ok_In _ _ _ _ Hsl Hi) as (l & Hsi & _). apply slice_inv in Hsi. lia. }
+    destruct (Hcc vs0 (concat next) Hl0) as (c'' & Hc'' & Hl'' & Hn'').
+    { apply Forall_forall. intros j Hj. apply in_concat in Hj as (r & Hr & Hj). unfold next in Hr.
+      apply in_map_iff in Hr as (i & <- & Hi). apply range_In in Hj. specialize (Hbounds i Hi).
+      rewrite <- (to_list_len _ _ Hl0). lia. }
+    cbn [carry].
+    rewrite mapM_guard with (h := fun i => range (i * size) ((i + 1) * size)).
+    2:{ eapply Forall_impl; [|exact Hix]. cbv beta. intros i Hi. rewrite Hzch in Hi.
+        destruct (size =? 0); lia. }
+    cbn [bind]. fold next. rewrite Hc''. cbn [bind]. eexists. split; [reflexivity|].
+    assert (Hgn : mapM (get vs0) (concat next) = Ok (concat rows)).
+    { rewrite mapM_concat. unfold next. rewrite mapM_map.
+      replace (mapM (fun x => mapM (get vs0) (range (x * size) ((x + 1) * size))) ix) with (Ok (A := list (list value)) rows); [reflexivity|].
+      rewrite <- Hsl. apply mapM_ext_in. intros i Hi. specialize (Hbounds i Hi). symmetry. apply gather_range; lia. }
+    pose proof (mapM_zlen _ _ _ Hrows) as Hlr.
+    split.
+    + rewrite to_list_Regular, Hl'', Hgn. cbn [bind]. rewrite <- Hlr. rewrite chunks_concat by assumption. cbn [rmap].
+      rewrite gather_map, Hrows. reflexivity.
+    + cbn [clen]. destruct (size =? 0) eqn:E; [reflexivity|]. rewrite Hn''.
+      pose proof (mapM_zlen _ _ _ Hgn) as Hz. rewrite <- Hz, (zlen_concat_const _ _ Hrs), Hlr. apply Z.div_mul. lia.
+  - (* Indexed *)
+    rewrite to_list_Indexed in Hl. apply bind_Ok in Hl as (vs0 & Hl0 & Hl). cbn [clen] in Hix.
+    destruct (gather_ok ix0 ix Hix) as [j Hj]. cbn [carry]. unfold gather. rewrite Hj. cbn [bind].
+    eexists. split; [reflexivity|]. split; [|cbn [clen]; apply (mapM_zlen _ _ _ Hj)].
+    rewrite to_list_Indexed, Hl0. cbn [bind]. apply (mapM_gather_ok _ _ _ ix j Hl Hj).
+  - (* IndexedOption *)
+    rewrite to_list_IndexedOption in Hl. apply bind_Ok in Hl as (vs0 & Hl0 & Hl). cbn [clen] in Hix.
+    destruct (gather_ok ix0 ix Hix) as [j Hj]. cbn [carry]. unfold gather. rewrite Hj. cbn [bind].
+    eexists. split; [reflexivity|]. split; [|cbn [clen]; apply (mapM_zlen _ _ _ Hj)].
+    rewrite to_list_IndexedOption, Hl0. cbn [bind]. apply (mapM_gather_ok _ _ _ ix j Hl Hj).
+  - (* ByteMasked *)
+    inversion HV; subst.
+    rewrite to_list_ByteMasked in Hl. apply bind_Ok in Hl as (vs0 & Hl0 & Hl). cbn [clen] in Hix.
+    destruct (gather_ok m ix Hix) as [m' Hm'].
+    destruct (IHc None vs0 ix) as (c'' & Hc'' & Hl'' & Hn''); [assumption|assumption| |].
+    { eapply Forall_impl; [|exact Hix]. cbv beta. intros; lia. }
+    cbn [carry]. unfold gather. rewrite Hm', Hc''. cbn [bind]. eexists. split; [reflexivity|].
+    split; [|cbn [clen]; apply (mapM_zlen _ _ _ Hm')].
+    destruct (gather_ok vs0 ix) as [ws Hws].
+    { rewrite (to_list_len _ _ Hl0). eapply Forall_impl; [|exact Hix]. cbv beta. intros; lia. }
+    rewrite to_list_ByteMasked, Hl'', Hws. cbn [bind]. eapply bytemasked_gather; eassumption.
+  - (* BitMasked *)
+    inversion HV; subst.
+    rewrite to_list_BitMasked in Hl. apply bind_Ok in Hl as (vs0 & Hl0 & Hl). cbn [clen] in Hix.
+    destruct (n <? 0) eqn:En; [discriminate|].
+    assert (Hbm : exists bm, bytemask_of_bits m lsb n = Ok bm).
+    { unfold bytemask_of_bits. apply mapM_total. intros i Hi.
+      destruct (mapM_Ok_In _ _ _ _ Hl Hi) as (y & Hy & _). destruct (bit_at m lsb i); [cbn; eauto|discriminate]. }
+    destruct Hbm as [bm Hbm].
+    assert (Hlbm : zlen bm = n) by (unfold bytemask_of_bits in Hbm; rewrite (mapM_zlen _ _ _ Hbm), zlen_iota; lia).
+    rewrite (bitmask_as_bytemask vs0 m vw lsb n bm Hbm) in Hl by lia.
+    destruct (gather_ok bm ix) as [m' Hm']; [rewrite Hlbm; exact Hix|].
+    destruct (IHc None vs0 ix) as (c'' & Hc'' & Hl'' & Hn''); [assumption|assumption| |].
+    { eapply Forall_impl; [|exact Hix]. cbv beta. intros; lia. }
+    cbn [carry]. unfold gather. rewrite Hbm. cbn [bind]. rewrite Hm', Hc''. cbn [bind]. eexists. split; [reflexivity|].
+    split; [|cbn [clen]; apply (mapM_zlen _ _ _ Hm')].
+    destruct (gather_ok vs0 ix) as [ws Hws].
+    { rewrite (to_list_len _ _ Hl0). eapply Forall_impl; [|exact Hix]. cbv beta. intros; lia. }
+    rewrite to_list_ByteMasked, Hl'', Hws. cbn [bind]. eapply bytemasked_gather; eassumption.
+  - (* Unmasked *)
+    inversion HV; subst. rewrite to_list_Unmasked in Hl. cbn [clen] in Hix.
+    destruct (IHc None vs ix) as (c'' & Hc'' & Hl'' & Hn''); [assumption..|].
+    cbn [carry]. rewrite Hc''. cbn [bind]. eexists. split; [reflexivity|]. split; [|exact Hn''].
+    rewrite to_list_Unmasked. exact Hl''.
+  - (* Union *)
+    rewrite to_list_Union in Hl. apply bind_Ok in Hl as (vss & Hvss & Hl). cbn [clen] in Hix.
+    destruct (zlen ix0 <? zlen t) eqn:E0; [discriminate|].
+    destruct (gather_ok t ix Hix) as [t' Ht'].
+    destruct (gather_ok (take (zlen t) ix0) ix) as [j Hj].
+    { rewrite zlen_take by (pose proof (zlen_nonneg t); lia). exact Hix. }
+    cbn [carry]. unfold gather. rewrite Ht', Hj. cbn [bind]. eexists. split; [reflexivity|].
+    pose proof (mapM_zlen _ _ _ Ht') as Hlt. pose proof (mapM_zlen _ _ _ Hj) as Hlj.
+    split; [|cbn [clen]; exact Hlt].
+    rewrite to_list_Union, Hvss. cbn [bind]. destruct (zlen j <? zlen t') eqn:E; [lia|].
+    apply (mapM_gather_ok _ _ _ ix (zip t' j) Hl). rewrite <- (zip_take_l t ix0), gather_zip, Ht', Hj. reflexivity.
+  - (* Record *)
+    inversion HV; subst.
+    rewrite to_list_Record in Hl. apply bind_Ok in Hl as (vss & Hvss & Hl). cbn [clen] in Hix.
+    destruct (n <? 0) eqn:En; [discriminate|]. rewrite all_lists_mapM in Hvss.
+    rewrite carry_Record.
+    replace (forallb (fun i => (0 <=? i) && (i <? n)) ix) with true.
+    2:{ symmetry. apply forallb_forall. intros i Hi. rewrite Forall_forall in Hix. specialize (Hix i Hi). lia. }
+    assert (Hall : forall x, In x cs -> exists x' col, carry x ix = Ok x' /\ to_list x = Ok col /\
+                                                  to_list x' = mapM (get col) ix /\ clen x' = zlen ix).
+    { intros x Hx. destruct (mapM_Ok_In _ _ _ _ Hvss Hx) as (col & Hcol & _).
+      rewrite Forall_forall in IHcs.
+      match goal with H : Forall (Valid None) cs |- _ => rewrite Forall_forall in H; pose proof (H x Hx) as HVx end.
+      match goal with H : Forall (fun x => n <= clen x) cs |- _ => rewrite Forall_forall in H; pose proof (H x Hx) as Hnx end.
+      destruct (IHcs x Hx None col ix HVx Hcol) as (x' & ? & ? & ?).
+      { eapply Forall_impl; [|exact Hix]. cbv beta. intros; lia. }
+      exists x', col. auto. }
+    destruct (mapM_total (fun x => carry x ix) cs) as [cs' Hcs'].
+    { intros x Hx. destruct (Hall x Hx) as (x' & _ & ? & _). eauto. }
+    rewrite Hcs'. cbn [bind]. eexists. split; [reflexivity|]. split; [|reflexivity].
+    (* the columns of the result *)
+    assert (Hcols : mapM to_list cs' = mapM (fun col : list value => mapM (get col) ix) vss).
+    { rewrite (mapM_mapM _ to_list cs cs' Hcs'), (mapM_mapM _ (fun col : list value => mapM (get col) ix) cs vss Hvss).
+      apply mapM_ext_in. intros x Hx. destruct (Hall x Hx) as (x' & col & -> & -> & ? & _). cbn [bind]. assumption. }
+    destruct (mapM_total (fun col : list value => mapM (get col) ix) vss) as [vss' Hvss'].
+    { intros col Hcol. destruct (mapM_In_inv _ _ _ _ Hvss Hcol) as (x & Hx & Hlx).
+      apply gather_ok. rewrite (to_list_len _ _ Hlx).
+      match goal with H : Forall (fun x => n <= clen x) cs |- _ => rewrite Forall_forall in H; specialize (H x Hx) end.
+      eapply Forall_impl; [|exact Hix]. cbv beta. intros; lia. }
+    rewrite to_list_Record, all_lists_mapM, Hcols, Hvss'. cbn [bind].
+    pose proof (zlen_nonneg ix). destruct (zlen ix <? 0) eqn:E; [lia|].
+    rewrite (rows_gather ks vss vss' ix Hvss').
+    rewrite (mapM_gather _ _ vs ix Hl), gather_iota by exact Hix. reflexivity.
+  - (* Par *)
+    inversion HV; subst. rewrite to_list_Par in Hl. apply bind_Ok in Hl as (vs0 & Hl0 & Hl). cbn [clen] in Hix.
+    destruct (IHc arr vs0 ix) as (c'' & Hc'' & Hl'' & Hn''); [assumption..|].
+    cbn [carry]. rewrite Hc''. cbn [bind]. eexists. split; [reflexivity|]. split; [|exact Hn''].
+    rewrite to_list_Par, Hl''.
+    destruct arr as [[]|]; try (inversion Hl; subst; destruct (mapM (get vs) ix); reflexivity);
+      symmetry; apply mapM_gather; exact Hl.
+Qed.
+
+Theorem carry_spec : forall c vs ix,
+  Valid None c -> to_list c = Ok vs -> Forall (fun i => 0 <= i < clen c) ix ->
+  exists c', carry c ix = Ok c' /\ to_list c' = mapM (get vs) ix /\ clen c' = zlen ix.
+Proof. intros c vs ix. apply carry_spec_all. Qed.
+
+(* the same under a pending __array__ parameter (what [Valid] generalises over) *)
+Theorem carry_spec_p : forall c p vs ix,
+  Valid p c -> to_list c = Ok vs -> Forall (fun i => 0 <= i < clen c) ix ->
+  exists c', carry c ix = Ok c' /\ to_list c' = mapM (get vs) ix /\ clen c' = zlen ix.
+Proof. intros c p vs ix. apply carry_spec_all. Qed.
+
+Example carry_spec_ex :
+  let c := BitMasked [5] true true 3 (ListOffset I64 [1; 3; 3; 4] (Numpy DInt64 [4; 1] [DZ 1; DZ 2; DZ 3; DZ 4; DZ 5])) in
+  let ix := [2; 0; 0] in
+  let a := VList [VList [VNum (DZ 2)]; VList [VNum (DZ 3)]] in
+  let b := VList [VList [VNum (DZ 4)]] in
+  validb None c = true /\ to_list c = Ok [a; VNone; b] /\
+  forallb (fun i => (0 <=? i) && (i <? clen c)) ix = true /\
+  (do c' <- carry c ix; to_list c') = Ok [b; a; a].
+Proof. vm_compute. repeat split. Qed.
+
+(* c[a:b] *)
+Theorem crange_spec : forall c vs a b,
+  Valid None c -> to_list c = Ok vs -> 0 <= a -> a <= b -> b <= clen c ->
+  exists c', crange c a b = Ok c' /\ to_list c' = slice vs a b /\ clen c' = b - a.
+Proof.
+  intros c vs a b HV Hl Ha Hab Hb. unfold crange.
+  destruct (carry_spec c vs (range a b) HV Hl) as (c' & Hc & Hl' & Hn).
+  { apply Forall_forall. intros i Hi. apply range_In in Hi. lia. }
+  exists c'. split; [exact Hc|]. rewrite Hl', Hn, zlen_range by lia. split; [|reflexivity].
+  apply gather_range; try lia. rewrite (to_list_len _ _ Hl). exact Hb.
 Qed.
